@@ -106,7 +106,16 @@ func (o *sessionTracker) RemoteLogin(rul common.RemoteUserLogin) error {
 			u.setRemoteUserLoginInfo(rul)
 
 			found = true
+			sessionEnded := u.hasCachedSessionEnd()
 			writeErr = u.writeAndClearCache(o.eventWriter)
+			if sessionEnded {
+				// The audit session ended before its remote user
+				// login arrived. Its events have just been written,
+				// so release it like auditEventWithSession does.
+				// This is fine as we are called from within the
+				// Iterate function: the lock is already held.
+				o.sessIDsToUsers.DeleteUnsafe(asi)
+			}
 			// stop iteration
 			return false
 		}
@@ -369,6 +378,18 @@ func (o *user) setRemoteUserLoginInfo(login common.RemoteUserLogin) {
 // hasRemoteUserLoginInfo checks if there is a remote user login present for the user.
 func (o *user) hasRemoteUserLoginInfo() bool {
 	return o.hasRUL
+}
+
+// hasCachedSessionEnd returns true if the cached events contain the event
+// that marks the end of the audit session (refer to auditEventWithSession).
+func (o *user) hasCachedSessionEnd() bool {
+	for _, ae := range o.cached {
+		if ae.Type == auparse.AUDIT_CRED_DISP {
+			return true
+		}
+	}
+
+	return false
 }
 
 // toAuditEvent takes an array of coalesced events and returns and audit event
